@@ -190,3 +190,20 @@ Proof.
 Qed.
 
 End Proofs.
+
+Section Erase.
+Variable switch : cstate -> bool -> cstate.
+Variable evalc : env -> list ctok -> bool + cerr.
+Variable files : string -> option (list xline).
+Notation xrun := (CondIncl.xrun switch evalc files).
+
+(* wherever the chain is inactive after the lines before it, a group's worth of lines can be taken out of the file *)
+Theorem skipped_region_erasable d self a body b st st1 :
+  xrun d self a st = inl st1 -> is_active (p_stack (x_p st1)) = false -> xgroup 0 body = true ->
+  xrun d self (a ++ body ++ b) st = xrun d self (a ++ b) st.
+Proof.
+  intros Ha Hd Hg. rewrite !(xrun_app switch evalc files d self a), Ha.
+  destruct st1 as [[stk e o] once]. cbn [x_p p_stack] in Hd.
+  apply (skipped_group_has_no_effect switch evalc files d self body b stk e o once Hd Hg).
+Qed.
+End Erase.
